@@ -1800,6 +1800,30 @@ def check_feasibility(prog: Program, res: Result) -> None:
                         res.bad("R-NULL-FEAS", inst, fi.loc(node),
                                 f"{fi.short}: `{et}` does not preserve the "
                                 "None placeholder")
+        # set form of the coverage filter: covered >= set(stereo.atoms),
+        # set(stereo.atoms) <= covered, set(..).issubset(covered)
+        for node in ast.walk(fi.node):
+            txt = None
+            if isinstance(node, ast.Compare) and len(node.ops) == 1 and \
+                    isinstance(node.ops[0], (ast.GtE, ast.LtE, ast.Gt, ast.Lt)):
+                txt = norm(node)
+            elif isinstance(node, ast.Call) and isinstance(
+                    node.func, ast.Attribute) and node.func.attr in (
+                    "issubset", "issuperset"):
+                txt = norm(node)
+            if txt is None or not re.search(r"\.atoms\b", txt) or \
+                    "len(" in txt:
+                continue
+            n_f += 1
+            inst = f"{fi.short}: filter `{txt}`"
+            if "None" in txt:
+                res.ok("R-NULL-FEAS", inst, fi.loc(node))
+            else:
+                res.bad("R-NULL-FEAS", inst, fi.loc(node),
+                        f"{fi.short}: `{txt}` is False for a descriptor that "
+                        "contains the None placeholder (None is never a key "
+                        "of the mapping), so descriptors with a lone pair "
+                        "are never compared")
         if n_f < 3:
             res.error(f"R-NULL-FEAS {fname}: only {n_f} descriptor-atom "
                       "comprehensions recognised")
